@@ -214,27 +214,17 @@ def rule_trailing_separator(ctx: Ctx, rule: str) -> None:
     okd = len(d) == 1 and norm_src(d[0].value) == 'pattern[-1].dir_only if pattern else False'
     ctx.ob(rule, 'glob:Glob.glob/dir_only', okd, repo.loc('glob', g.node), 'dir_only = pattern[-1].dir_only if pattern else False',
            norm_src(d[0].value) if d else 'none')
-    gi = repo.func('glob', 'Glob.__init__')
-    src = [norm_src(s) for s in walk_no_nested(gi.node) if isinstance(s, (ast.Assign, ast.AnnAssign, ast.AugAssign, ast.If))]
-    okm = any(s.startswith('self.mark') and 'bool(flags & MARK)' in s for s in src) and \
-        any(s.startswith('if self.mark:') and 'flags ^= MARK' in s for s in src)
-    ctx.ob(rule, 'glob:Glob.__init__/mark', okm, repo.loc('glob', gi.node), 'self.mark = bool(flags & MARK); if self.mark: flags ^= MARK', str(okm))
+    from . import ginit
+    ginit.rule_walker_bits(ctx, rule, which={'mark', 'walker-bits-stripped'})
 
 
 def rule_nodir_glob(ctx: Ctx, rule: str) -> None:
     ctx.text(rule, 're_no_dir is appended to npatterns iff nodir, only in the inclusion pass; NODIR is stripped from the walker flags')
     repo = ctx.repo
-    pp = repo.func('glob', 'Glob._parse_patterns')
-    q = fq(pp)
-    apps = [c for c in q.calls(lambda s: s == 'self.npatterns.append') if c.args and norm_src(c.args[0]) == 'self.re_no_dir']
-    ok = len(apps) == 1 and ('self.nodir', 'T') in q.guards(apps[0]) and ('force_negate', 'F') in q.guards(apps[0])
-    ctx.ob(rule, 'glob:Glob._parse_patterns/nodir-pattern', ok, repo.loc('glob', apps[0] if apps else pp.node),
-           'if self.nodir and not force_negate: self.npatterns.append(self.re_no_dir)', f'{len(apps)} append(s)',
-           witness="glob('*', flags=NODIR) must not return directories; the exclusion pass must not add it twice")
-    gi = repo.func('glob', 'Glob.__init__')
-    src = [norm_src(s) for s in walk_no_nested(gi.node) if isinstance(s, (ast.Assign, ast.AnnAssign, ast.If))]
-    okn = any(s.startswith('self.nodir') and 'bool(flags & NODIR)' in s for s in src) and any(s.startswith('if self.nodir:') and 'flags ^= NODIR' in s for s in src)
-    ctx.ob(rule, 'glob:Glob.__init__/nodir', okn, repo.loc('glob', gi.node), 'self.nodir = bool(flags & NODIR); stripped from flags', str(okn))
+    from .clists import parse_patterns_tail
+    parse_patterns_tail(ctx, rule, which={'nodir-pattern'})
+    from . import ginit
+    ginit.rule_walker_bits(ctx, rule, which={'nodir', 'walker-bits-stripped'})
 
 
 FS_CALLS = {'os.scandir', 'os.open', 'os.lstat', 'os.stat', 'os.path.lexists', 'os.path.isdir', 'os.path.islink',
@@ -559,29 +549,60 @@ def rule_existence_gate(ctx: Ctx, rule: str) -> None:
 
 # ================================================================================================ C05
 def rule_case_fold_agreement(ctx: Ctx, rule: str) -> None:
-    ctx.text(rule, 'case-fold agreement of literal segments: Glob._match_literal folds `a` exactly under `not self.case_sensitive`, '
-                   'and _get_matcher pre-folds the literal under the same condition; case_sensitive comes from _wcparse.get_case')
+    ctx.text(rule, 'case-fold agreement of literal segments (decision tables): Glob._match_literal compares a.lower() with b exactly when '
+                   'not self.case_sensitive and a with b otherwise; _get_matcher hands _match_literal the literal folded under the same '
+                   'condition, returns None for None and the pattern\'s fullmatch otherwise; case_sensitive = get_case(self.flags)')
+    from .common import tabulate_method
+    from ..symeval import BoundMethod
     repo = ctx.repo
     ml = repo.func('glob', 'Glob._match_literal')
-    r = [s for s in ml.node.body if isinstance(s, ast.Return)]
-    ok = bool(r) and norm_src(r[0].value) == 'a.lower() == b if not self.case_sensitive else a == b'
-    ctx.ob(rule, 'glob:Glob._match_literal/shape', ok, repo.loc('glob', ml.node), 'a.lower() == b if not self.case_sensitive else a == b',
-           norm_src(r[0].value) if r else 'none', witness="glob('README', flags=IGNORECASE) must find readme")
+    ev, paths = tabulate_method(repo, 'glob', 'Glob._match_literal', {}, [Opaque('a'), Opaque('b')], inline=False)
+    bad = []
+    for p in paths:
+        cs = p.decisions.get('self.case_sensitive')
+        cmp_atoms = {k: v for k, v in p.decisions.items() if k != 'self.case_sensitive'}
+        want = 'a == b' if cs else 'a.lower() == b'
+        alt = 'b == a' if cs else 'b == a.lower()'
+        if cs is None or len(cmp_atoms) != 1 or (want not in cmp_atoms and alt not in cmp_atoms) or p.ret is not list(cmp_atoms.values())[0]:
+            bad.append(f'case_sensitive={cs}: decides {sorted(cmp_atoms)} returns {p.ret!r}')
+    ctx.ob(rule, 'glob:Glob._match_literal/shape', not bad and len(paths) == 4, repo.loc('glob', ml.node), 'a.lower() == b if not self.case_sensitive else a == b',
+           f'{len(paths)} rows agree' if not bad else bad[0], witness="glob('README', flags=IGNORECASE) must find readme")
     gm = repo.func('glob', 'Glob._get_matcher')
-    q = fq(gm)
-    lows = [s for s in walk_no_nested(gm.node) if isinstance(s, ast.Assign) and norm_src(s.value) == 'target.lower()']
-    plains = [s for s in walk_no_nested(gm.node) if isinstance(s, ast.Assign) and norm_src(s.value) == 'target' and norm_src(s.targets[0]) == 'match']
-    ok2 = len(lows) == 1 and len(plains) == 1 and q.guarded(lows[0], 'self.case_sensitive', 'F') and q.guarded(plains[0], 'self.case_sensitive', 'T')
-    ctx.ob(rule, 'glob:Glob._get_matcher/prefold', ok2, repo.loc('glob', gm.node), 'match = target.lower() iff not self.case_sensitive', str(ok2),
+    ev, paths = tabulate_method(repo, 'glob', 'Glob._get_matcher', {}, [Opaque('target')], inline=False)
+    bad2, bad3 = [], []
+    n_lit = 0
+    for p in paths:
+        parts = p.calls_to('functools.partial')
+        if p.decisions.get('target is not None') is False:
+            if p.ret is not None or parts:
+                bad3.append(f'None target: returns {p.ret!r}')
+            continue
+        lit = [v for k, v in p.decisions.items() if k.startswith('isinstance(target, ')]
+        if len(lit) != 1:
+            bad3.append(f'type test {lit}')
+            continue
+        if not lit[0]:
+            if p.ret != Opaque('target.fullmatch') or parts:
+                bad3.append(f'pattern target: returns {p.ret!r}')
+            continue
+        n_lit += 1
+        cs = p.decisions.get('self.case_sensitive')
+        if len(parts) != 1 or cs is None:
+            bad2.append(f'case_sensitive={cs}: {len(parts)} partial(s)')
+            continue
+        _n, a_, k_, _c = parts[0]
+        fn_ok = len(a_) == 1 and isinstance(a_[0], BoundMethod) and a_[0].fn.fq == 'glob:Glob._match_literal'
+        b_par = [x for x in ml.params() if x != 'self'][1]
+        want = Opaque('target') if cs else Opaque('target.lower()')
+        if not fn_ok or set(k_) != {b_par} or k_[b_par] != want:
+            bad2.append(f'case_sensitive={cs}: partial({a_}, {k_})')
+    ctx.ob(rule, 'glob:Glob._get_matcher/prefold', not bad2 and n_lit == 2, repo.loc('glob', gm.node),
+           'partial(self._match_literal, b=target.lower() iff not self.case_sensitive else target)', 'as expected' if not bad2 else bad2[0][:200],
            witness="glob('ReadMe', flags=IGNORECASE): the stored literal must be folded like the candidate")
-    part = [c for c in walk_no_nested(gm.node) if isinstance(c, ast.Call) and norm_src(c.func) == 'functools.partial']
-    ok3 = len(part) == 1 and norm_src(part[0]) == 'functools.partial(self._match_literal, b=match)'
-    ctx.ob(rule, 'glob:Glob._get_matcher/partial', ok3, repo.loc('glob', gm.node), 'functools.partial(self._match_literal, b=match)', norm_src(part[0]) if part else 'none')
-    gi = repo.func('glob', 'Glob.__init__')
-    cs = [s for s in walk_no_nested(gi.node) if isinstance(s, (ast.Assign, ast.AnnAssign)) and
-          norm_src(s.targets[0] if isinstance(s, ast.Assign) else s.target) == 'self.case_sensitive']
-    ok4 = len(cs) == 1 and norm_src(cs[0].value) == '_wcparse.get_case(self.flags)'
-    ctx.ob(rule, 'glob:Glob.__init__/case_sensitive', ok4, repo.loc('glob', gi.node), '_wcparse.get_case(self.flags)', norm_src(cs[0].value) if cs else 'none')
+    ctx.ob(rule, 'glob:Glob._get_matcher/other-targets', not bad3, repo.loc('glob', gm.node), 'None -> None; compiled pattern -> its fullmatch',
+           'as expected' if not bad3 else bad3[0][:200])
+    from . import ginit
+    ginit.rule_derived_attrs(ctx, rule, which={'case_sensitive'})
 
 
 def rule_magic_classification(ctx: Ctx, rule: str) -> None:
